@@ -356,7 +356,7 @@ Definition step (s : state) (o : op) : state * res :=
         match v_schema d with
         | None => (s, RFail)
         | Some sch =>
-            if ((idx <? 0) || (zlen sch <=? idx))%Z then (s, RUnspec) else
+            if ((idx <? 0) || (zlen sch <=? idx))%Z then (s, RFail) else
             match nth_error sch (Z.to_nat idx) with
             | None => (s, RUnspec)
             | Some f => (s, ROk [f_type f; Z.of_nat (fsize f); Z.of_nat (fsize f); f_order f] [f_name f] [])
